@@ -176,6 +176,58 @@ theorem C03_periodic (xs ys : List F) (hs : StrictInc xs) (hy : ys.length = xs.l
       field_simp at hrow0 ⊢
       linear_combination hrow0
 
+/-- **C03_periodic3**: three points, Periodic boundary (closed form of the code). -/
+theorem C03_periodic3 (xs ys : List F) (hs : StrictInc xs) (hy : ys.length = xs.length)
+    (h3 : xs.length = 3) (hends : ys[0]'(by omega) = ys[2]'(by omega)) :
+    ∃ ks, ∃ (hk : ks.length = xs.length),
+      solveForK (V := F) xs ys .periodic = .ok ks ∧
+      -- C² at the middle knot
+      (pc xs ys ks hy hk 0 1 (by omega) (by omega)).d2 (xs[1]'(by omega)) =
+        (pc xs ys ks hy hk 1 2 (by omega) (by omega)).d2 (xs[1]'(by omega)) ∧
+      -- equal first and second derivatives at the two ends
+      (pc xs ys ks hy hk 1 2 (by omega) (by omega)).d1 (xs[2]'(by omega)) =
+        (pc xs ys ks hy hk 0 1 (by omega) (by omega)).d1 (xs[0]'(by omega)) ∧
+      (pc xs ys ks hy hk 1 2 (by omega) (by omega)).d2 (xs[2]'(by omega)) =
+        (pc xs ys ks hy hk 0 1 (by omega) (by omega)).d2 (xs[0]'(by omega)) := by
+  have hn : 3 ≤ xs.length := by omega
+  have h01 : xs[1] - xs[0] ≠ 0 := ne_of_gt (sub_pos.mpr (hs.2 0 1 (by omega) (by omega)))
+  have h12 : xs[2] - xs[1] ≠ 0 := ne_of_gt (sub_pos.mpr (hs.2 1 2 (by omega) (by omega)))
+  have hsum : (xs[2] - xs[1]) + (xs[1] - xs[0]) ≠ 0 := by
+    have a := sub_pos.mpr (hs.2 0 1 (by omega) (by omega))
+    have b := sub_pos.mpr (hs.2 1 2 (by omega) (by omega))
+    exact ne_of_gt (by linarith)
+  have hg : (3 ≤ ys.length ∧ xs.length = ys.length) := ⟨by omega, hy.symm⟩
+  have hl : ys.length = 3 := by omega
+  have hsolve : solveForK (V := F) xs ys .periodic = .ok (periodic3 (endsOf xs ys hy hn)) := by
+    unfold solveForK
+    simp only [bind, Except.bind, pure, Except.pure]
+    rw [if_neg (not_not.mpr hg)]
+    simp only [getEnds_eq' xs ys hy hn, InternalBoundary.specialize, all2_scalar]
+    have : Cmp.eq (endsOf xs ys hy hn).y0 (endsOf xs ys hy hn).yl1 = true := by
+      rw [cmp_eq]
+      simp only [endsOf]
+      rw [hends]
+      congr 1
+      omega
+    simp only [this, Bool.not_true, Bool.false_eq_true, if_false, hl, if_true]
+  refine ⟨periodic3 (endsOf xs ys hy hn), by simp [periodic3, h3], hsolve, ?_, ?_, ?_⟩
+  · simp only [pc]
+    rw [c2_iff_row _ _ _ _ _ _ _ _ _ h01 h12]
+    simp only [interiorEq, periodic3, endsOf, Ends.dx0, Ends.dx1, map1_scalar, map2_scalar, c1_eq,
+      List.getElem_cons_zero, List.getElem_cons_succ]
+    field_simp
+    ring
+  · simp only [pc]
+    rw [piece_d1_right _ _ _ _ _ _ h12, piece_d1_left]
+    simp [periodic3]
+  · simp only [pc]
+    rw [piece_d2_right _ _ _ _ _ _ h12, piece_d2_left _ _ _ _ _ _ h01]
+    simp only [periodic3, endsOf, Ends.dx0, Ends.dx1, map1_scalar, map2_scalar, c1_eq,
+      List.getElem_cons_zero, List.getElem_cons_succ]
+    rw [hends]
+    field_simp
+    ring
+
 end periodic
 
 /-- **C03_defect_witness**: on the knots `3, 4, 8` with the cubic `x³` (`y = x³`, slopes `3x²`,
